@@ -8,6 +8,7 @@ package mcp
 
 import (
 	"encoding/json"
+	"errors"
 	"fmt"
 	"net/http"
 	"sync"
@@ -32,9 +33,16 @@ type sseNotificationSender struct {
 	// writeMu serialises events: a handler may emit notifications from several goroutines, and an
 	// http.ResponseWriter is not safe for concurrent use.
 	writeMu sync.Mutex
+
+	// finished is set (under writeMu) once the handler has returned and the answer is being written:
+	// the stream belongs to the answer from then on, and the ResponseWriter must not be used any more.
+	finished bool
 }
 
 // newSSENotificationSender creates an SSE notification sender
+// errNotificationSenderFinished is returned to goroutines a handler left behind.
+var errNotificationSenderFinished = errors.New("notification sender is closed: the request has been answered")
+
 func newSSENotificationSender(w http.ResponseWriter, f http.Flusher, sessionID string) *sseNotificationSender {
 	return &sseNotificationSender{
 		writer:    w,
@@ -100,6 +108,9 @@ func (s *sseNotificationSender) SendCustomNotification(method string, params map
 	// Send SSE event using sseutil.Writer instead of direct fmt.Fprintf
 	s.writeMu.Lock()
 	defer s.writeMu.Unlock()
+	if s.finished {
+		return errNotificationSenderFinished
+	}
 	eventID := s.sseWriter.GenerateEventID()
 	return s.sseWriter.WriteEvent(s.writer, sseutil.Event{
 		ID:   eventID,
@@ -121,6 +132,9 @@ func (s *sseNotificationSender) SendNotification(notification *Notification) err
 	// Send SSE event using sseutil.Writer instead of direct fmt.Fprintf
 	s.writeMu.Lock()
 	defer s.writeMu.Unlock()
+	if s.finished {
+		return errNotificationSenderFinished
+	}
 	eventID := s.sseWriter.GenerateEventID()
 	return s.sseWriter.WriteEvent(s.writer, sseutil.Event{
 		ID:   eventID,
